@@ -167,6 +167,25 @@ def overwritten_accumulators(ctx, f, view):
                 if p in reach and p is not d:
                     out.append((p.ast, nm, d.ast))
                     break
+    # a plain assignment that a loop repeats without the name having been read in between: every iteration throws away
+    # what the previous one produced (reported with aug=None)
+    for nm, plist in plains.items():
+        for p in plist:
+            avoid = set(loads.get(nm, ())) - {p}
+            avoid |= {q for q in plist if q is not p} | set(accs.get(nm, []))
+            succ = [m for (m, l) in v.cfg.succ[p] if l != "exc"]
+            seen, stack, cyc = set(), list(succ), False
+            while stack:
+                x = stack.pop()
+                if x is p:
+                    cyc = True
+                    break
+                if x in seen or x in avoid:
+                    continue
+                seen.add(x)
+                stack.extend(m for (m, l) in v.cfg.succ[x] if l != "exc")
+            if cyc and (nm in accs or nm in loads):
+                out.append((p.ast, nm, None))
     return out
 
 
@@ -184,6 +203,17 @@ def check_no_overwritten_accumulator(ctx, rule, scope_funcs, view, only_issue_na
                     and x.value.func.attr in ("extend", "append") and isinstance(x.value.func.value, ast.Name):
                 n += 1
         for stmt, nm, aug in hits:
+            if aug is None:
+                # repeated by a loop: only when what is thrown away is an issue list that the function hands back
+                returned_ = f in P and any(isinstance(r, ast.Return) and r.value is not None and
+                                           any(isinstance(x, ast.Name) and x.id == nm for x in ast.walk(r.value))
+                                           for r in walk_no_nested(f.node))
+                if returned_ and any(isinstance(c, ast.Call) and id(c) in prod for c in ast.walk(stmt)):
+                    ctx.saw(f)
+                    ctx.violation(rule, f.qualname, stmt, loc(f, stmt),
+                                  "'%s' is plainly assigned an issue list in a loop and not read before the next iteration assigns it "
+                                  "again: only the issues of the last item survive (and everything collected before the loop is lost)" % nm)
+                continue
             returned = f in P and any(isinstance(r, ast.Return) and r.value is not None and
                                       any(isinstance(x, ast.Name) and x.id == nm for x in ast.walk(r.value))
                                       for r in walk_no_nested(f.node))
